@@ -291,6 +291,14 @@ fn run_sync(ops: &[Value], port: u16, timeout: Duration) -> (Vec<Value>, Vec<u64
                 None => json!("skip"),
             },
             "drop" => { conn = None; json!("unit") }
+            "transport" if op["url"].is_string() => {
+                // built from a connection URL ({port} is replaced by the scripted peer's port)
+                let url = op["url"].as_str().unwrap().replace("{port}", &port.to_string());
+                match SmtpTransport::from_url(&url) {
+                    Ok(b) => { tr = Some(b.timeout(Some(timeout)).pool_config(PoolConfig::new().max_size(0)).build()); json!("unit") }
+                    Err(e) => json!(format!("urlerr,{e}")),
+                }
+            }
             "transport" => {
                 let mut b = SmtpTransport::builder_dangerous("127.0.0.1").port(port).timeout(Some(timeout))
                     .hello_name(ClientId::Domain(s_of(&op["hello"])));
@@ -376,6 +384,13 @@ async fn run_tokio(ops: &[Value], port: u16, timeout: Duration) -> (Vec<Value>, 
                 None => json!("skip"),
             },
             "drop" => { conn = None; json!("unit") }
+            "transport" if op["url"].is_string() => {
+                let url = op["url"].as_str().unwrap().replace("{port}", &port.to_string());
+                match AsyncSmtpTransport::<Tokio1Executor>::from_url(&url) {
+                    Ok(b) => { tr = Some(b.timeout(Some(timeout)).pool_config(PoolConfig::new().max_size(0)).build()); json!("unit") }
+                    Err(e) => json!(format!("urlerr,{e}")),
+                }
+            }
             "transport" => {
                 let mut b = AsyncSmtpTransport::<Tokio1Executor>::builder_dangerous("127.0.0.1").port(port).timeout(Some(timeout))
                     .hello_name(ClientId::Domain(s_of(&op["hello"])));
